@@ -54,7 +54,7 @@ REQUIRE = {
     "yields_compared": 300,
     "lock_probes": 300,
     "second_assoc_probes_ok": 20,
-    "undecodable_pending_identifier_none": 3,
+    "undecodable_pending_identifier_none": 4,
     "subop_requests_served": 5,
     "followup_echo_release_ok": 40,
     "followup_peer_release_ok": 10,
@@ -331,8 +331,8 @@ def gen_cases(tier, seed):
             kind = RSP_KIND[op]
             # valid: every final status, 0..4 Pendings
             for st in fin:
-                n = rng.choice([0, 1, 2, 3, 4])
-                cases.append(_case(op, "valid", pendings(op, n, rng=rng) + [final(op, st, n)], rng))
+                for n in (rng.choice([0, 1]), rng.choice([2, 3, 4, 5])):
+                    cases.append(_case(op, "valid", pendings(op, n, rng=rng) + [final(op, st, n)], rng))
             cases.append(_case(op, "valid", pendings(op, 6, rng=rng) + [final(op, 0x0000, 6)], rng, mode="drop",
                                followup="peer_release"))
             cases.append(_case(op, "valid", pendings(op, 2, rng=rng) + [final(op, rng.choice(fin), 2)], rng,
@@ -359,7 +359,7 @@ def gen_cases(tier, seed):
                     cases.append(_case(op, "invalid-response", pendings(op, k, rng=rng)
                                        + [rsp(kind, st, ds=ds, omit=[om])] + [final(op, 0x0000, k)], rng))
             # undecodable identifier
-            for raw in UNDECODABLE:
+            for raw in (UNDECODABLE + UNDECODABLE if op == "find" else UNDECODABLE):
                 if op == "find":
                     k = rng.choice([0, 1, 2])
                     after = rng.choice([0, 1, 2])
@@ -420,6 +420,16 @@ def gen_cases(tier, seed):
                 cases.append(_case(op, "invalid-response", [rsp(kind, 0x0000, omit=[om])], rng))
             for a in ("silence", "close", "abort"):
                 cases.append(_case(op, {"silence": "silence", "close": "peer-close", "abort": "peer-abort"}[a], [{"a": a}], rng))
+        # ---------------- back-to-back operations with two pure scheduling delays (reactor thread late after its
+        # checkpoint wait(), calling thread late between send_msg() and get_msg()): nothing else differs from "valid"
+        for op in ("echo", "find", "get", "n_get", "store", "move"):
+            if op in ITER_OPS:
+                sc = pendings(op, 1, rng=rng) + [final(op, 0x0000, 1)]
+            else:
+                sc = [single_rsp(op, 0x0000)]
+            c = _case(op, "valid-delayed-threads", sc, rng, mode="exhaust", followup="echo_release")
+            c["sched"] = {"reactor_late": 0.03, "caller_late": 0.06}
+            cases.append(c)
     rng.shuffle(cases)
     for c in cases:
         reference(c)    # every generated script must be well-formed for the reference
@@ -643,6 +653,35 @@ def _norm_ident(ds):
         return {"_error": repr(exc)[:120]}
 
 
+class _LateEvent(threading.Event):
+    """threading.Event whose waiter is scheduled `late` seconds after wait() returned (a pure delay)."""
+
+    def __init__(self, late):
+        super().__init__()
+        self._late = late
+
+    def wait(self, timeout=None):
+        r = super().wait(timeout)
+        time.sleep(self._late)
+        return r
+
+
+def _inject_delays(assoc, caller, sched):
+    ev = _LateEvent(sched["reactor_late"])
+    if assoc._reactor_checkpoint.is_set():
+        ev.set()
+    assoc._reactor_checkpoint = ev
+    time.sleep(0.05)          # the reactor picks the new event object up at its next iteration
+    orig = assoc.dimse.send_msg
+
+    def send_msg(*a, **kw):
+        r = orig(*a, **kw)
+        if threading.current_thread() is caller:
+            time.sleep(sched["caller_late"])
+        return r
+    assoc.dimse.send_msg = send_msg
+
+
 class Caller(threading.Thread):
     """The application thread: performs the operation, the lock probes and the follow-up; records phases."""
 
@@ -653,6 +692,7 @@ class Caller(threading.Thread):
         self.obs = []            # yielded / returned pairs
         self.exc = None
         self.lock_probes = []    # (index, acquired)
+        self.lock_retries = 0
         self.second = []         # results of second-association probes
         self.follow = {}
         self.end_state = {}
@@ -663,6 +703,11 @@ class Caller(threading.Thread):
     def probe_lock(self, idx):
         lk = self.ae._lock
         ok = lk.acquire(blocking=False)
+        if not ok:
+            # a short critical section of another thread (e.g. a second association being set up) is legitimate:
+            # only a lock that stays taken counts as held by the suspended iterator
+            ok = lk.acquire(timeout=0.3)
+            self.lock_retries += 1
         if ok:
             lk.release()
         self.lock_probes.append((idx, ok))
@@ -917,6 +962,8 @@ def run_case(case):
             return {"key": _sig(case), "nontrivial": False, "sample": sample, "violations": [], "counters": counters,
                     "inconclusive": "association with the scripted acceptor not established"}
         caller = Caller(case, ae, assoc, acc, acc.lst.port)
+        if case.get("sched"):
+            _inject_delays(assoc, caller, case["sched"])
         caller.start()
         finished = caller.done.wait(WATCHDOG)
         if not finished:
@@ -956,7 +1003,10 @@ def run_case(case):
             C("yields_compared", len(obs))
             C("op_%s" % op)
             C("cat_%s" % cat)
+            stolen = [t for (aid, t, valid) in list(REACTOR_GOT) if aid == id(assoc) and not valid]
             for suffix, detail in compare(case, obs, ref["yields"]):
+                if stolen and ref["end"] == "established" and suffix in ("missing-yield", "response-skipped", "wrong-value|status-not-empty", "wrong-value|status"):
+                    continue        # reported once below as reactor-consumed-response
                 if cat == "wrong-type" and suffix == "wrong-value|status-not-empty":
                     V("wrong-type|%s|accepted-as-response" % op, "a %s was taken as the response of %s; " % (
                         [s_["kind"] for s_ in case["script"] if s_["a"] == "rsp" and s_["kind"] != RSP_KIND[op]][:1], RQ_KIND[op]) + detail)
@@ -999,7 +1049,6 @@ def run_case(case):
             # ---- end state / follow-up
             es, fo = caller.end_state, caller.follow
             end = ref["end"]
-            stolen = [t for (aid, t, valid) in list(REACTOR_GOT) if aid == id(assoc) and not valid]
             if stolen:
                 C("reactor_consumed_messages", len(stolen))
             if end == "timeout-aborted":
@@ -1020,12 +1069,12 @@ def run_case(case):
             if end in ("peer-closed", "ended-undocumented"):
                 C("undocumented_end_aborted_%s" % bool(es.get("aborted_end")))
             if end == "established":
-                if not es.get("established_after_op"):
-                    V("%s|%s|association-lost-after-valid-stream" % (op, cat), "is_established False right after a valid stream; %r" % es)
-                elif stolen:
-                    V("reactor-consumed-response|%s" % ("followup-echo" if fo.get("echo") is None and "echo" in fo else op),
+                if stolen:
+                    V("reactor-consumed-response|%s" % ("followup-echo" if fo.get("echo") is None and "echo" in fo and es.get("established_after_op") else op),
                       "a response of a stream without extra messages was taken off the DIMSE queue by the association reactor "
-                      "instead of the calling send_* method: %r; yields %r, follow-up %r" % (stolen, obs[:6], fo))
+                      "instead of the calling send_* method: %r; yields %r, follow-up %r, delays injected: %r" % (stolen, obs[:6], fo, case.get("sched")))
+                elif not es.get("established_after_op"):
+                    V("%s|%s|association-lost-after-valid-stream" % (op, cat), "is_established False right after a valid stream; %r" % es)
                 elif case["followup"] == "echo_release":
                     if fo.get("echo") != 0:
                         V("followup|echo-failed|after-%s" % op, "C-ECHO after the operation returned %r; %r %r" % (fo.get("echo"), fo, es))
